@@ -19,7 +19,7 @@
    the body of another (its quanta lie between two quanta of the outer one).
    [trace t] = the driver calls made on behalf of transaction t, in order. *)
 From Coq Require Import List ZArith Bool Sorted.
-From GZ Require Import C14.Model C14.Check C14.ProofsA C14.ProofsB C14.ProofsC C14.ProofsD.
+From GZ Require Import C14.Model C14.Check C14.ProofsA C14.ProofsB C14.ProofsC C14.ProofsD C14.ProofsE.
 Import ListNotations.
 Open Scope Z_scope.
 
@@ -214,6 +214,19 @@ Theorem driver_script_is_followed : forall g scs sched orc,
               eout e = honoured (ecall e) (rout (nth i orc dflt)).
 Proof. exact script_followed_l. Qed.
 Print Assumptions driver_script_is_followed.
+
+(* Transactions do not interfere.  In any run — any interleaving with any other transactions on the
+   same or on other SqlConns, concurrent, back to back, or begun from inside one another's body —
+   transaction t is in exactly the state, and has made exactly the driver calls, of the run in which
+   only t is scheduled and the driver's script [orc_t] consists of the replies t received
+   ([orc_t] is consumed exactly: any continuation [x] of the script is left untouched). *)
+Theorem transactions_do_not_interfere : forall g scs sched orc t,
+  exists orc_t, forall x,
+    let W := exec g scs sched orc in
+    let W1 := exec g scs (only t sched) (orc_t ++ x) in
+    state_of W1 t = state_of W t /\ wlog W1 = proj t (wlog W) /\ worc W1 = x.
+Proof. intros g scs sched orc t. exact (solo_l ret_of g scs sched orc t). Qed.
+Print Assumptions transactions_do_not_interfere.
 
 (* Nested use.  A Transact / TransactCtx on the transaction's own session
    (NewSqlConnFromSession(s), CachedConn.WithSession(s)) makes no driver call, leaves the outer
